@@ -68,6 +68,22 @@ def c09_ops(rng, held, names, b):
         ('let-name', 'let_n', [u, ','.join(f'{x}={rng.choice(names)}' for x in vs)]),
         ('cube', 'cube', [','.join(f'{x}={rng.randint(0, 1)}' for x in vs)]),
         ('var', 'var', [rng.choice(names)]),
+    ] + _c09_relational(rng, held, names, b)
+
+
+def _c09_relational(rng, held, names, b):
+    """image / preimage over one pair of adjacent variables (operands are held references)."""
+    if len(names) < 2:
+        return []
+    i = rng.randrange(len(names) - 1)
+    x, xp = b._level_to_var[i], b._level_to_var[i + 1]
+    if rng.random() < 0.5:
+        x, xp = xp, x
+    u, v = rng.choice(held), rng.choice(held)
+    fa = rng.randint(0, 1)
+    return [
+        ('image', 'image', [u, v, f'n:{xp}=n:{x}', f'n:{x}', fa]),
+        ('preimage', 'preimage', [u, v, f'n:{x}=n:{xp}', f'n:{xp}', fa]),
     ]
 
 
@@ -84,6 +100,13 @@ def check_C09(ctx):
         probe.close()
         for label, op, args in rng.sample(ops, 4 if ctx.tier == 'quick' else len(ops)):
             _c09_one(ctx, lines, held, names, label, op, args)
+    # copy into a manager in which reordering is enabled
+    for k in range(6 if ctx.tier == 'quick' else 60):
+        if ctx.time_left() < 10:
+            break
+        _c09_copy(ctx)
+    _c09_direct(ctx)
+    _c09_known_witnesses(ctx)
     # natural triggering at lowered thresholds
     for k in range(30 if ctx.tier == 'quick' else 400):
         if ctx.time_left() < 5:
@@ -128,12 +151,16 @@ def check_C09(ctx):
         h.finish(SECTIONS_L3, 'C09 natural')
 
 
-def _c09_one(ctx, lines, held, names, label, op, args, mid=0, extra=None):
-    """Run `op` without reordering, then with the request firing at k = 1, 2, ..."""
+def _c09_one(ctx, lines, held, names, label, op, args, mid=0, op_mid=None):
+    """Run `op` without reordering, then with the request firing at k = 1, 2, ...
+    `mid` is the manager in which reordering is enabled and the result lives;
+    `op_mid` the manager the protocol line addresses (differs for `copy`)."""
+    if op_mid is None:
+        op_mid = mid
     ref_s = replay_lines(ctx, lines)
     b0 = ref_s.mgr(mid)
-    held_tt = {u: TT(b0, names).of(u) for u in held}
-    ans0 = ref_s.op(mid, op, *args)
+    held_tt = {u: TT(b0, names).of(u) for u, mm in held if mm == mid} if held and isinstance(held[0], tuple) else {u: TT(b0, names).of(u) for u in held}
+    ans0 = ref_s.op(op_mid, op, *args)
     r0 = ref_s.val(ans0)
     want = TT(b0, names).of(r0) if r0 is not None else None
     ctx.add_session(ref_s, SECTIONS_L3, f'C09 {label} reference')
@@ -146,7 +173,7 @@ def _c09_one(ctx, lines, held, names, label, op, args, mid=0, extra=None):
         b = s.mgr(mid)
         s.op(mid, 'configure', 1)
         s.op(mid, 'fire_in', k)
-        ans = s.op(mid, op, *args)
+        ans = s.op(op_mid, op, *args)
         fired = id(b) not in implmod._FIRE
         s.op(mid, 'fire_off')
         r = s.val(ans)
@@ -611,3 +638,187 @@ def _expand(g, sp):
     mk = sp.masks[g.var]
     t = (mk & _expand(g.high, sp)) | (sp.neg(mk) & _expand(g.low, sp))
     return sp.neg(t) if g.negated else t
+
+
+def _c09_copy(ctx):
+    """`copy_bdd` from manager 0 into manager 1 where reordering is enabled (target holds references)."""
+    rng = ctx.rng
+    nv = rng.randint(3, 5)
+    lines, held, names = build_scenario(ctx, nv)
+    # a target with its own order and some held content
+    order = names[:]
+    rng.shuffle(order)
+    h2 = []
+    tl = ['1\tnew\t' + ','.join(f'{v}={i}' for i, v in enumerate(order))]
+    lines = lines + tl
+    probe = replay_lines(ctx, lines)
+    for _ in range(rng.randint(0, 6)):
+        a = probe.val(probe.op(1, 'var', rng.choice(names)))
+        b_ = probe.val(probe.op(1, 'var', rng.choice(names)))
+        r = probe.val(probe.op(1, 'apply', rng.choice(['and', 'xor', 'or']), a, -b_))
+        probe.incref(1, r)
+    lines = [ln.split('\tS:')[0] for ln in probe.lines]
+    probe.close()
+    u = rng.choice(held)
+    _c09_one(ctx, lines, [], names, 'copy', 'copy', [u, 1], mid=1, op_mid=0)
+
+
+def _c09_direct(ctx):
+    """Entry points that are not protocol ops: one-shot iterables as arguments, autoref.find_or_add,
+    pickle load; reordering request fired at k = 1.. via the patched `_request_reordering`."""
+    import dd.autoref as _auto
+    import os
+    rng = ctx.rng
+    _bdd = implmod._bdd
+    for rep in range(6 if ctx.tier == 'quick' else 60):
+        names = [chr(ord('a') + i) for i in range(rng.randint(3, 5))]
+        order = names[:]
+        rng.shuffle(order)
+
+        def make():
+            b = _bdd.BDD()
+            b.declare(*order)
+            r = random_fn(b, rng2)
+            b.incref(r)
+            return b, r
+        seed2 = rng.randrange(1 << 30)
+        import random as _random
+        cases = [
+            ('quantify-generator', lambda b, r, qs, fa: b.quantify(r, (x for x in qs), fa)),
+            ('exist-generator', lambda b, r, qs, fa: b.exist((x for x in qs), r)),
+            ('forall-iter', lambda b, r, qs, fa: b.forall(iter(list(qs)), r)),
+            ('cube-generator', lambda b, r, qs, fa: b.cube(x for x in qs)),
+        ]
+        qs = rng.sample(names, rng.randint(1, len(names) - 1))
+        fa = bool(rng.randint(0, 1))
+        for label, call in cases:
+            rng2 = _random.Random(seed2)
+            b0, r0 = make()
+            want = TT(b0, names).of(call(b0, r0, qs, fa))
+            neutralise(b0)
+            k = 1
+            while k <= 40:
+                rng2 = _random.Random(seed2)
+                b, r = make()
+                keep = TT(b, names).of(r)
+                b.configure(reordering=True)
+                implmod.set_fire(b, k)
+                bad = []
+                try:
+                    res = call(b, r, qs, fa)
+                    if TT(b, names).of(res) != want:
+                        bad.append('result differs from the run with reordering disabled')
+                except Exception as e:  # noqa: BLE001
+                    bad.append('raised ' + implmod.err_name(e))
+                fired = id(b) not in implmod._FIRE
+                implmod.set_fire(b, None)
+                if abs(r) not in b._succ or TT(b, names).of(r) != keep:
+                    bad.append('operand changed')
+                if b._last_len is None:
+                    bad.append('reordering no longer enabled')
+                ctx.evaluations += 1
+                ctx.count('trigger:' + label)
+                if bad:
+                    ctx.violation(f'{label}: reordering at request {k} is visible', dict(
+                        problems=bad, k=k, order=order, qvars=qs, forall=fa,
+                        tags=dict(call='dyn:' + label, symptom='one-shot-iterable')))
+                neutralise(b)
+                ctx.case(('direct', label, k, tuple(order), tuple(qs)))
+                if not fired:
+                    break
+                k += 1
+    # autoref.find_or_add and pickle load with reordering enabled: the request must not escape
+    for rep in range(4 if ctx.tier == 'quick' else 40):
+        bdd = _auto.BDD()
+        bdd.declare('x', 'y', 'z')
+        bdd.configure(reordering=True)
+        bdd._bdd._last_len = 1
+        f = bdd.add_expr('y /\\ z')
+        try:
+            g = bdd.find_or_add('x', f, bdd.true)
+            ok = TT(bdd._bdd, ['x', 'y', 'z']).of(g.node) is not None
+        except Exception as e:  # noqa: BLE001
+            ctx.violation('autoref.find_or_add: reordering signal or error reaches the caller', dict(
+                got=implmod.err_name(e), tags=dict(call='dyn:autoref.find_or_add')))
+        ctx.evaluations += 1
+        ctx.case(('direct', 'autoref.find_or_add', rep))
+        del f
+        try:
+            del g
+        except NameError:
+            pass
+        # pickle load into a manager with reordering enabled
+        src = _bdd.BDD()
+        src.declare('x', 'y', 'z')
+        u = src.add_expr('(x /\\ y) \\/ ~ z')
+        os.makedirs(implmod.SCRATCH, exist_ok=True)
+        fn = os.path.join(implmod.SCRATCH, f'c09_{os.getpid()}.p')
+        try:
+            src.dump(fn, roots=[u])
+            want = TT(src, ['x', 'y', 'z']).of(u)
+            tgt = _bdd.BDD()
+            tgt.declare('x', 'y', 'z')
+            tgt.configure(reordering=True)
+            tgt._last_len = 1
+            try:
+                roots = tgt.load(fn)
+                if TT(tgt, ['x', 'y', 'z']).of(roots[0]) != want:
+                    ctx.violation('load with reordering enabled returns another function', dict(
+                        tags=dict(call='dyn:load')))
+            except Exception as e:  # noqa: BLE001
+                ctx.violation('load with reordering enabled raises', dict(
+                    got=implmod.err_name(e), tags=dict(call='dyn:load')))
+            neutralise(tgt)
+        finally:
+            if os.path.exists(fn):
+                os.remove(fn)
+        neutralise(src)
+        ctx.evaluations += 1
+        ctx.case(('direct', 'load', rep))
+
+
+def neutralise(b):
+    """Let a manager die quietly (its `__del__` asserts on live references)."""
+    try:
+        b._ref = {1: 0}
+        b._succ = {1: b._succ[1]}
+        b._pred = {}
+    except Exception:  # noqa: BLE001
+        pass
+
+
+def random_fn(b, rng):
+    """A random function built by connectives (deterministic in `rng`)."""
+    names = sorted(b.vars)
+    pool = [b.var(n) for n in names]
+    for _ in range(rng.randint(4, 14)):
+        u, v = rng.choice(pool), rng.choice(pool)
+        pool.append(b.apply(rng.choice(['and', 'or', 'xor', 'implies']), rng.choice([u, -u]), v))
+    return pool[-1]
+
+
+def _c09_known_witnesses(ctx):
+    """Deterministic replay (fixed internal seed, independent of VERIF_SEED) of the call sites
+    listed as known findings: image / preimage with a request served in mid-recursion."""
+    import random as _random
+    saved = ctx.rng
+    ctx.rng = _random.Random(20260928)
+    try:
+        need = {'image', 'preimage'}
+        for _ in range(60):
+            if not need:
+                break
+            nv = ctx.rng.randint(4, 6)
+            lines, held, names = build_scenario(ctx, nv)
+            probe = replay_lines(ctx, lines)
+            ops = _c09_relational(ctx.rng, held, names, probe.mgr(0))
+            probe.close()
+            for label, op, args in ops:
+                if label not in need:
+                    continue
+                before = len(ctx.violations)
+                _c09_one(ctx, lines, held, names, label, op, args)
+                if len(ctx.violations) > before:
+                    need.discard(label)
+    finally:
+        ctx.rng = saved
